@@ -70,6 +70,14 @@ func stmtSrc(kind string, k int) string {
 		return fmt.Sprintf("return %d if nil", 70+k)
 	case "X":
 		return fmt.Sprintf(`raise Err.new("x%d")`, k)
+	case "KW": // names that merely begin with a reserved word are variables, not jump statements
+		return "defer_total := 5\n  return_early := 6\n  raise_on_fail := 7"
+	case "DZ2": // a falsy guard made of a zero that is not the cached 0 and an operator that short-cuts
+		return fmt.Sprintf(`defer "d%d".p if (false + false) && true`, k)
+	case "DO2": // a truthy guard: the left operand does not decide
+		return fmt.Sprintf(`defer "d%d".p if (true - true) || [0]`, k)
+	case "RZ2":
+		return fmt.Sprintf("return %d if Int.bear.new(0) && true", 70+k)
 	case "XN": // raise of something that is not an error ends the body like return does (docs/reference/statements.md)
 		return "raise nil"
 	case "XG":
@@ -131,8 +139,15 @@ func model(stmts []string) outcome {
 		case "R", "RT":
 			val = fmt.Sprint(70 + k)
 			stopped = true
-		case "RF":
+		case "RF", "RZ2":
 			val = "nil"
+		case "KW":
+			val = "7"
+		case "DZ2":
+			val = "nil"
+		case "DO2":
+			defers = append(defers, fmt.Sprintf("d%d", k))
+			valDC = true
 		case "XN":
 			val = "nil"
 			stopped = true
@@ -358,6 +373,8 @@ func gen(c *core.Ctx, emit func(tcase)) {
 		}
 	}
 	fn := []string{"call", "nested", "try", "nested3", "method", "chain-elem"}
+	// a second, small alphabet: keyword-prefixed variable names and guards whose truth needs the full rule
+	rec([]string{"P", "D", "R", "X", "KW", "DZ2", "DO2", "RZ2"}, c.Pick(3, 4), nil, fn)
 	if c.Thorough() {
 		rec(alphabet, 5, nil, fn)
 		rec(iterAlphabet, 5, nil, []string{"iter"})
